@@ -180,6 +180,13 @@ func waitConn(ch chan net.Conn, d time.Duration) net.Conn {
 }
 
 func c13run(sm, useTLS bool, first, lives string) string {
+	// a keepalive interval far beyond the duration of a script: no keepalive fires during a script
+	return c13runKA(10*time.Minute, sm, useTLS, first, lives)
+}
+
+// c13runKA: the same with a given keepalive interval (C18 runs fault scripts with a keepalive that ticks every few
+// milliseconds: the keepalive of a lost session must not disturb the reconnection - F-18b)
+func c13runKA(ka time.Duration, sm, useTLS bool, first, lives string) string {
 	ln, err := net.Listen("tcp", "127.0.0.1:0")
 	if err != nil {
 		return "listen-failed"
@@ -211,7 +218,7 @@ func c13run(sm, useTLS bool, first, lives string) string {
 	cfg := &xmpp.Config{
 		TransportConfiguration: xmpp.TransportConfiguration{Address: addr, Domain: "localhost"},
 		Jid:                    "test@localhost/res", Credential: xmpp.Password("secret"), Insecure: true,
-		ConnectTimeout: 1, StreamManagementEnable: sm,
+		ConnectTimeout: 1, StreamManagementEnable: sm, KeepaliveInterval: ka,
 	}
 	if useTLS {
 		cfg.Insecure = false
